@@ -245,6 +245,21 @@ func GenSpec(r *Rand, edits int) (M, []string) {
 	return doc, applied
 }
 
+// GenSpecSameRule: an otherwise regular document with two to four offenders of ONE rule. When validation stops at the
+// first error, which offender gets reported is exactly what must not depend on map order, member order or history;
+// unrelated errors (which stop the validation earlier) would hide it.
+func GenSpecSameRule(r *Rand) (M, []string) {
+	doc, _ := GenSpec(r, 0)
+	kind := r.Intn(nEditKinds + nEditKinds2)
+	var applied []string
+	for i, n := 0, r.Range(2, 4); i < n; i++ {
+		if e := applyEdit(r, doc, kind); e != "" {
+			applied = append(applied, e)
+		}
+	}
+	return doc, applied
+}
+
 // warning-only edits: conditions the specification validator reports as warnings, never as errors. Applying them to a
 // document must leave its error set and verdict unchanged ("warnings alone never make a document invalid").
 const nWarnEdits = 7
